@@ -363,3 +363,14 @@ def submit_cancel_shutdown(mw=1, wait=True):
     return P(f"submit-cancel-shutdown-w{mw}-{wait}", pool(max_workers=mw),
              [NEW, sub("a", "ok", 1), ["result", "a"], sub("b", "ok", 2), ["cancel", "b"],
               shutdown(wait)] + ([] if wait else [WAIT]))
+
+
+def forced_full_pipe(mw=1, cap=1024, n=3, size=700, broken=False):
+    """Forced shutdown (or a crash) while the feeder thread is blocked on a full call-queue
+    pipe: nobody will ever read it again."""
+    ops = [NEW, sub("g", "die" if broken else "gate")] + [sub(f"q{i}", "big_arg", size) for i in range(n)]
+    if broken:
+        ops += [WAIT, shutdown(True)]
+    else:
+        ops += [["shutdown", True, True]]
+    return P(f"forced-full-pipe-w{mw}-b{broken}", pool(max_workers=mw, pipe_cap=cap), ops)
